@@ -36,8 +36,9 @@ ENTRY = dict(
                    "two-qubit unitary) the closed forms are proved AS A FUNCTION OF THE WEYL COORDINATES; that Qiskit's "
                    "TwoQubitWeylDecomposition returns exact coordinates of the gate (|theta/2| folded into the Weyl chamber, 0, 0) resp. (t,t,0) is "
                    "oracle O-KAK: monitored by the harness on every case (reconstruction of the gate to 1e-9, documented coordinates), not proved. "
-                   "c15_facts_source demands the call TwoQubitWeylDecomposition(mat, fidelity=None): with Qiskit's default fidelity the oracle "
-                   "is allowed to approximate and the contract is false (finding F14).",
+                   "c15_facts_source demands the call TwoQubitWeylDecomposition(mat, fidelity=None): with Qiskit's default fidelity (1-1e-9) the oracle "
+                   "snaps near-special gates to special classes, e.g. RZXGate(7e-5) to the identity class with kappa 1.0 instead of 1.00014 "
+                   "(finding F14, repaired in /repo; harness witness F14 = rzx(7e-5)).",
         assumptions=[
             "Model/Kappa.v evaluates coefficient expressions regenerated from the source; the translator maps np.abs(u[k])**2 to re^2+im^2 and "
             "np.real/np.imag(u[j]*np.conj(u[k])) to the real bilinear forms; float literals are read as their decimal values",
